@@ -1165,6 +1165,155 @@ impl Operator<u64> for Tick<'_> {
     }
 }
 
+// ---- typed instantiations: the element / result / error TYPES of the composed operator (zero-sized, with a niche,
+// bulky) are part of "for all operators"; code that looks at `size_of` must not change what is computed
+const TYPED: usize = usize::MAX - 1;
+
+/// A zero-sized but inhabited error.
+#[derive(Debug, PartialEq, Clone, Copy)]
+struct Gone;
+
+impl fmt::Display for Gone {
+    fn fmt(&self, f: &mut fmt::Formatter<'_>) -> fmt::Result {
+        write!(f, "gone")
+    }
+}
+
+impl StdError for Gone {}
+
+struct Typed<'a, O, E> {
+    fail_at: Option<usize>,
+    calls: &'a std::cell::Cell<usize>,
+    mk: fn(u64) -> O,
+    err: fn(usize) -> E,
+}
+
+impl<O, E> ec_core::operator::composable::Composable for Typed<'_, O, E> {}
+
+impl<O, E> Operator<u64> for Typed<'_, O, E> {
+    type Output = O;
+    type Error = E;
+
+    fn apply<R: Rng + ?Sized>(&self, input: u64, rng: &mut R) -> Result<O, E> {
+        let c = self.calls.get();
+        self.calls.set(c + 1);
+        let w = rng.next_u64();
+        if self.fail_at == Some(c) {
+            return Err((self.err)(c));
+        }
+        Ok((self.mk)(input ^ w))
+    }
+}
+
+const TYPED_KINDS: u64 = 8;
+
+fn exec_typed(sc: &Sc, obs: &mut Obs) -> Vec<Violation> {
+    fn judge<O: PartialEq + fmt::Debug, E: fmt::Debug>(
+        what: &str,
+        is_map: bool,
+        n: usize,
+        fault: Option<usize>,
+        calls: usize,
+        draws: u64,
+        r: Result<Result<Vec<O>, E>, simcore::Panicked>,
+        expected: Vec<O>,
+    ) -> Vec<Violation> {
+        let mut v = Vec::new();
+        let fails = fault.filter(|f| *f < n);
+        let expected_calls = fails.map_or(n, |f| f + 1);
+        let res = match r {
+            Err(p) => {
+                v.push(Violation::new("never-panics", format!("panic:typed:{what}"), format!("{what} (n = {n}, failure at {fault:?}) panicked: {}", p.message)));
+                return v;
+            }
+            Ok(res) => res,
+        };
+        if calls != expected_calls {
+            v.push(Violation::new(
+                "failure-stops-everything-after-it",
+                format!("typed:calls:{what}"),
+                format!("{what} (n = {n}), failure injected at call {fault:?}: the operator was applied {calls} times, expected {expected_calls}"),
+            ));
+        }
+        if draws != expected_calls as u64 {
+            v.push(Violation::new(
+                "random-stream-consumed-left-to-right",
+                format!("typed:draws:{what}"),
+                format!("{what} (n = {n}), failure injected at call {fault:?}: {draws} random words were consumed, expected {expected_calls}"),
+            ));
+        }
+        match (res, fails) {
+            (Ok(out), None) => {
+                if out != expected {
+                    v.push(Violation::new(
+                        "result-assembled-in-order",
+                        format!("typed:values:{what}"),
+                        format!("{what} (n = {n}): the result has {} elements and differs from applying the operator to each element in order ({} expected)", out.len(), expected.len()),
+                    ));
+                }
+            }
+            (Ok(out), Some(f)) => v.push(Violation::new(
+                "error-identifies-failing-part",
+                format!("typed:missed-failure:{what}"),
+                format!("{what} (n = {n}): call {f} failed but the result is Ok with {} elements", out.len()),
+            )),
+            (Err(e), None) => v.push(Violation::new("error-identifies-failing-part", format!("typed:spurious-error:{what}"), format!("{what} (n = {n}): nothing failed but the result is the error {e:?}"))),
+            (Err(e), Some(f)) => {
+                let text = format!("{e:?}");
+                let numbers: Vec<&str> = text.split(|c: char| !c.is_ascii_digit()).filter(|t| !t.is_empty()).collect();
+                if is_map && !numbers.contains(&f.to_string().as_str()) {
+                    v.push(Violation::new(
+                        "error-identifies-failing-part",
+                        format!("typed:error-path:{what}"),
+                        format!("{what} (n = {n}): element {f} failed; the error {text} does not name it"),
+                    ));
+                }
+            }
+        }
+        v
+    }
+    let mut rng = sc.rng.build();
+    let mut model = rng.fork();
+    let calls = std::cell::Cell::new(0usize);
+    let kind = sc.input_seed % TYPED_KINDS;
+    let n = if kind < 5 { sc.list_len } else { 5000 };
+    let input: Vec<u64> = (0..n as u64).map(|i| i.wrapping_mul(sc.input_seed | 1)).collect();
+    let words: Vec<u64> = (0..n).map(|_| model.next_u64()).collect();
+    let mixed = |i: usize| if kind < 5 { input[i] ^ words[i] } else { sc.input_seed ^ words[i] };
+    obs.hit("probe.typed-instantiation(zero-sized/niche/bulky-results-and-errors)");
+    obs.nontrivial(mix(mix(0x7e9d, kind), mix(n as u64, sc.fault.map_or(u64::MAX, |f| f as u64))));
+    macro_rules! run_map {
+        ($what:expr, $o:ty, $e:ty, $mk:expr, $err:expr) => {{
+            let op = || Typed::<$o, $e> { fail_at: sc.fault, calls: &calls, mk: $mk, err: $err };
+            let r = catch(|| Identity.map(op()).apply(input.clone(), &mut rng));
+            let mk: fn(u64) -> $o = $mk;
+            let v = judge($what, true, n, sc.fault, calls.get(), rng.draws(), r, (0..n).map(|i| mk(mixed(i))).collect());
+            obs.count("steps", calls.get() as u64);
+            v
+        }};
+    }
+    macro_rules! run_repeat {
+        ($what:expr, $o:ty, $e:ty, $mk:expr, $err:expr) => {{
+            let op = || Typed::<$o, $e> { fail_at: sc.fault, calls: &calls, mk: $mk, err: $err };
+            let r = catch(|| op().apply_n_times::<5000>().apply(sc.input_seed, &mut rng).map(|a| Vec::from(a)));
+            let mk: fn(u64) -> $o = $mk;
+            let v = judge($what, false, n, sc.fault, calls.get(), rng.draws(), r, (0..n).map(|i| mk(mixed(i))).collect());
+            obs.count("steps", calls.get() as u64);
+            v
+        }};
+    }
+    match kind {
+        0 => run_map!("map, results bool, zero-sized error", bool, Gone, |x| x % 2 == 1, |_| Gone),
+        1 => run_map!("map, results Box<u64>, zero-sized error", Box<u64>, Gone, Box::new, |_| Gone),
+        2 => run_map!("map, results (), zero-sized error", (), Gone, |_| (), |_| Gone),
+        3 => run_map!("map, results [u64; 20], error carrying the position", [u64; 20], TickErr, |x| [x; 20], TickErr),
+        4 => run_map!("map, results Option<char>, zero-sized error", Option<char>, Gone, |x| char::from_u32((x % 0x800) as u32), |_| Gone),
+        5 => run_repeat!("apply_n_times::<5000>, results ()", (), TickErr, |_| (), TickErr),
+        6 => run_repeat!("apply_n_times::<5000>, results (), zero-sized error", (), Gone, |_| (), |_| Gone),
+        _ => run_repeat!("apply_n_times::<5000>, results bool, zero-sized error", bool, Gone, |x| x % 2 == 1, |_| Gone),
+    }
+}
+
 fn exec_big(sc: &Sc, obs: &mut Obs) -> Vec<Violation> {
     let mut v = Vec::new();
     let mut rng = sc.rng.build();
@@ -1376,6 +1525,7 @@ impl Check for C14 {
             "probe.dynamic-tree",
             "probe.dynamic-tree-depth>=6",
             "probe.more-than-16-bits-worth-of-elements",
+            "probe.typed-instantiation(zero-sized/niche/bulky-results-and-errors)",
             "probe.operator-value-applied-more-than-once",
         ]
     }
@@ -1422,6 +1572,24 @@ impl Check for C14 {
             };
             return Sc { shape: BIG, fault, input_seed: g.next_u64(), list_len, rng: RngSpec::swarm(g), tree: None, more: Vec::new() };
         }
+        if run % 100 == 77 {
+            // typed instantiations (see `exec_typed`): kind and fault position enumerated by run index
+            let k = run / 100;
+            let kind = k % TYPED_KINDS;
+            let list_len = match (k / TYPED_KINDS) % 4 {
+                0 => g.urange(0, 4),
+                1 => g.urange(5, 70),
+                _ => g.log_uniform(1, 3000),
+            };
+            let n = if kind < 5 { list_len } else { 5000 };
+            let fault = match (k / TYPED_KINDS / 4) % 4 {
+                0 => None,
+                1 => Some(0),
+                2 if n > 0 => Some(n - 1),
+                _ => Some(g.usize_below(n.max(1))),
+            };
+            return Sc { shape: TYPED, fault, input_seed: (g.next_u64() / TYPED_KINDS) * TYPED_KINDS + kind, list_len, rng: RngSpec::swarm(g), tree: None, more: Vec::new() };
+        }
         if run >= self.static_runs(tier) {
             return gen_dynamic(g);
         }
@@ -1449,6 +1617,9 @@ impl Check for C14 {
     fn execute(&self, sc: &Sc, obs: &mut Obs) -> Vec<Violation> {
         if sc.shape == BIG && sc.tree.is_none() {
             return exec_big(sc, obs);
+        }
+        if sc.shape == TYPED && sc.tree.is_none() {
+            return exec_typed(sc, obs);
         }
         // applications on ONE operator value: the first, then `more`
         let specs: Vec<(Option<usize>, u64, usize)> =
